@@ -1,13 +1,15 @@
 #!/usr/bin/env python3
 """Run every distinct (harness, parameters) pair of a tier once, with evidence
 and replays redirected to a scratch directory, and print wall time and verdict.
-usage: tools/tier_sweep.py <quick|thorough> [budget_seconds] [workers]"""
+usage: tools/tier_sweep.py <quick|thorough> [budget_seconds] [workers] [property ids...]"""
 import json,glob,subprocess,sys,time,os
 tier=sys.argv[1]; budget=sys.argv[2] if len(sys.argv)>2 else '1200'; workers=sys.argv[3] if len(sys.argv)>3 else '16'
+only=set(sys.argv[4:])
 seen={}
 for f in sorted(glob.glob('/verif/harness/specs/*.json')):
     sp=json.load(open(f))
     for pid,p in sp['properties'].items():
+        if only and pid not in only: continue
         for h in p['harnesses']:
             if 'tiers' in h and tier not in h['tiers']: continue
             key=(h['pkg'],h['func'],json.dumps(h.get(tier,{}),sort_keys=True))
